@@ -21,7 +21,7 @@ type gen struct {
 
 var allLeafKinds = []string{"base", "base", "plain", "retry", "fb", "retryfb", "func", "func", "func"}
 var payKinds = []string{"int", "str", "float", "map", "slice", "ptr", "struct", "nil", "nilptr", "nilmap", "nilslice"}
-var failKinds = []string{"sentinel", "wrapped", "custom", "wrapcustom"}
+var failKinds = []string{"sentinel", "wrapped", "custom", "wrapcustom", "ctxerr"}
 var actionAlphabet = []string{"default", "", "a", "ab", "b", "Default"} // "Default" differs from the default action by case only
 
 func pick[T any](r *rand.Rand, xs []T) T { return xs[r.IntN(len(xs))] }
@@ -89,7 +89,7 @@ func (g *gen) execScript(budget int, allowErrRes bool) []Outcome {
 		nfail = 0
 	}
 	for i := 0; i < nfail; i++ {
-		o := Outcome{Fail: pick(g.r, failKinds)}
+		o := Outcome{Fail: pick(g.r, failKinds), Both: g.chance(0.15)}
 		if g.chance(g.sleepP) {
 			o.SleepMs = 10 * (1 + g.r.IntN(3))
 		}
@@ -184,6 +184,9 @@ func (g *gen) leaf(nv int) *NodeSpec {
 			if g.failP > 0 && g.chance(0.3) {
 				fo = Outcome{Fail: pick(g.r, failKinds)}
 			}
+			if fo.Fail != "" {
+				fo.Both = g.chance(0.4)
+			}
 			vs.Fb = &fo
 		}
 		vs.Post = Outcome{Action: pick(g.r, g.actions)}
@@ -275,6 +278,39 @@ func (g *gen) tree(nLeaves, depth int, batchP float64) int {
 		members = next
 	}
 	return g.flowOver(members, 0.5).ID
+}
+
+// dynamicConnects: some post callbacks call Connect on an enclosing flow for
+// the very (node, action) pair they are about to finish with.
+func (g *gen) dynamicConnects() {
+	for _, f := range g.sc.Nodes {
+		if f.Kind != "flow" || !g.chance(0.3) {
+			continue
+		}
+		members := map[int]bool{f.Start: true}
+		for _, c := range f.Conns {
+			members[c.From] = true
+			if c.To >= 0 {
+				members[c.To] = true
+			}
+		}
+		var ms []int
+		for m := range members {
+			ms = append(ms, m)
+		}
+		sortInts(ms)
+		from := pick(g.r, ms)
+		n := g.sc.Nodes[from]
+		if n.Kind == "flow" || len(n.Visits) == 0 {
+			continue
+		}
+		vi := g.r.IntN(len(n.Visits))
+		to := -1
+		if !g.chance(0.2) {
+			to = pick(g.r, ms)
+		}
+		n.Visits[vi].Post.Conn = &DynConn{Flow: f.ID, From: from, Action: normAction(n.Visits[vi].Post.Action), To: to}
+	}
 }
 
 // lateConnects: on some flows, a few Connect calls are made after the first run.
@@ -412,7 +448,13 @@ func (g *gen) batch(o batchOpts) *NodeSpec {
 			it.Exec = g.execScript(budget, n.style(1) == 'R')
 			if n.HasFb && g.chance(0.7) {
 				fo := g.outcome()
+				if fo.Fail != "" {
+					fo.Both = g.chance(0.4)
+				}
 				it.Fb = &fo
+			}
+			if (n.PrepShape == "" || n.PrepShape == "results") && n.style(1) == 'R' && g.chance(0.1) {
+				it.Pay = "erritem" // prep hands this item over as an error Result
 			}
 			vs.Items = append(vs.Items, it)
 		}
@@ -571,6 +613,7 @@ func genC03(prop, tier string, r *rand.Rand) *Scn {
 			g.sc.Via = "flowrun"
 		}
 		g.lateConnects()
+		g.dynamicConnects()
 		return g.sc
 	})
 }
@@ -669,7 +712,13 @@ func (g *gen) rootBatch(ni, budget, wait, conc int, stop bool, shapes []string) 
 		it.Exec = g.execScript(budget, n.style(1) == 'R' && !stop)
 		if n.HasFb && g.chance(0.6) {
 			fo := g.outcome()
+			if fo.Fail != "" {
+				fo.Both = g.chance(0.4)
+			}
 			it.Fb = &fo
+		}
+		if (n.PrepShape == "" || n.PrepShape == "results") && n.style(1) == 'R' && g.chance(0.1) {
+			it.Pay = "erritem"
 		}
 		vs.Items = append(vs.Items, it)
 	}
@@ -864,6 +913,10 @@ func genC09(prop, tier string, r *rand.Rand) *Scn {
 			vs.Items[i].Exec = append(vs.Items[i].Exec, Outcome{Fail: pick(r, failKinds)})
 		}
 		vs.Items[i].Fb = nil
+		if n.HasFb && r.IntN(2) == 0 {
+			// the fallback fails too, sometimes handing its input back together with the error
+			vs.Items[i].Fb = &Outcome{Fail: pick(r, failKinds), Both: r.IntN(5) < 3}
+		}
 	}
 	f := r.IntN(ni)
 	fail(f)
@@ -957,7 +1010,9 @@ func genC05(prop, tier string, r *rand.Rand) *Scn {
 			n := g.leaf(1)
 			g.sc.Root = n.ID
 		} else {
-			g.sc.Root = g.tree(1+r.IntN(5), 1+r.IntN(3), 0)
+			// batch nodes may be members (a node that must not be started after the
+			// cancellation); the cancellation itself lands in main-lane callbacks
+			g.sc.Root = g.tree(1+r.IntN(5), 1+r.IntN(3), 0.2)
 		}
 		if r.IntN(4) == 0 && g.sc.Nodes[g.sc.Root].Kind == "flow" {
 			g.sc.Via = "flowrun"
@@ -1354,6 +1409,7 @@ func genC10(prop, tier string, r *rand.Rand) *Scn {
 			g.sc.Via = "flowrun"
 		}
 		g.lateConnects()
+		g.dynamicConnects()
 		return g.sc
 	})
 }
